@@ -29,7 +29,7 @@ PROPS = {
     "C05": h1prop("PigeonVerif.Properties.C05", P(["trace_stores", "stores", "val"]),
                   [("state", 5000, 150000), ("blocks", 1500, 40000), ("lr", 1000, 30000), ("panic", 500, 10000)]),
     "C06": h1prop("PigeonVerif.Properties.C06", P(["val", "errs", "cnt", "choices", "trace_ctx"]),
-                  [("memo", 4000, 120000), ("core", 1500, 40000), ("blocks", 1500, 40000)],
+                  [("memo", 4000, 120000), ("core", 1500, 40000), ("blocks", 1500, 40000), ("lr", 3000, 80000)],
                   oracles=[orc_c06_bound], twins=twins_c06, twin_rel=rel_c06,
                   variants=[v for v in core.ALL_VARIANTS if v.startswith("o0")], level="other",
                   explanation="Debug/Statistics/Memoize twins of every case are run on the real generated parser and compared; Lean theorems cover the memo-table discipline only (the full memo-soundness statement is false for the unchanged code, finding D7)"),
@@ -42,7 +42,7 @@ PROPS = {
                   [("mixed", 6000, 200000), ("state", 2000, 50000), ("lr", 1500, 40000)],
                   twins=twins_c10, twin_rel=rel_c10),
     "C11": h1prop("PigeonVerif.Properties.C11", P(["val", "errs"]),
-                  [("panic", 3000, 90000), ("blocks", 2500, 60000), ("utf8", 500, 10000)], oracles=[orc_c11]),
+                  [("panic", 3000, 90000), ("blocks", 2500, 60000), ("lr", 4000, 100000), ("utf8", 500, 10000)], oracles=[orc_c11]),
     "C12": h1prop("PigeonVerif.Properties.C12", P(["errs", "mf"]),
                   [("core", 5000, 150000), ("utf8", 1000, 30000), ("throw", 1000, 30000), ("lr", 1000, 20000)], oracles=[orc_c12]),
     "C14": h1prop("PigeonVerif.Properties.C14", P(["val", "pos", "noerr", "errs", "trace_blks"]),
@@ -51,7 +51,8 @@ PROPS = {
                   [("core", 6000, 200000), ("utf8", 2000, 50000), ("blocks", 1000, 20000)],
                   twins=twins_c15, twin_rel=rel_c15, variants=[v for v in core.ALL_VARIANTS if v.endswith("b1")]),
     "C16": h1prop("PigeonVerif.Properties.C16", P(["val", "cnt", "errs"]),
-                  [("budget", 6000, 200000), ("memo", 1000, 30000)], oracles=[orc_c16], phase2=phase2_c16),
+                  [("budget", 6000, 200000), ("memo", 1000, 30000)], oracles=[orc_c16], phase2=phase2_c16,
+                  twins=twins_c16_memo, twin_rel=rel_none),
     "C17": h1prop("PigeonVerif.Properties.C17", P(["val", "errs", "pos", "trace_ctx"]),
                   [("utf8", 6000, 200000)], oracles=[orc_c17]),
     "C18": dict(module="PigeonVerif.Properties.C18", run=conc_check.run_c18, level="other"),
